@@ -130,7 +130,7 @@ class Fixture:
             # the in-memory state of the aggregator object(s) is part of the explored state: without it, states that differ only in
             # shared memory would be merged and interleavings behind them pruned
             uniq = objs[:1] if mode == "thread" else objs
-            return bodies, list(sched.ALL_LOCKS), {"mem_digest": lambda: hash(tuple(sched.digest(o) for o in uniq))}
+            return bodies, list(sched.ALL_LOCKS), {"mem_digest": lambda: hash((tuple(sched.digest(o) for o in uniq), sched.global_state_digest()))}
 
         return mk
 
